@@ -73,6 +73,34 @@ fn prog_to_json(p: &[PushProgram]) -> Value {
     )
 }
 
+/// the program as a flat token sequence (instructions, {"br":1} / {"br":0} around each block)
+fn prog_tokens(p: &[PushProgram], out: &mut Vec<Value>) {
+    for item in p {
+        match item {
+            PushProgram::Instruction(i) => out.push(json!({"i": gene_to_json(i)})),
+            PushProgram::Block(b) => {
+                out.push(json!({"br": 1}));
+                prog_tokens(b, out);
+                out.push(json!({"br": 0}));
+            }
+        }
+    }
+}
+
+fn translate_flat(genes: &Value) -> Value {
+    let real: Vec<PushGene> = arr(genes).iter().map(gene_from_json).collect();
+    match guarded(|| {
+        let plushy: Plushy = real.into_iter().collect();
+        let prog: Vec<PushProgram> = plushy.into();
+        let mut t = Vec::new();
+        prog_tokens(&prog, &mut t);
+        Value::Array(t)
+    }) {
+        Ok(v) => v,
+        Err(m) => json!([{"panic": m}]),
+    }
+}
+
 fn translate(genes: &Value) -> Value {
     let real: Vec<PushGene> = arr(genes).iter().map(gene_from_json).collect();
     match guarded(|| {
@@ -113,6 +141,22 @@ pub fn trace(args: &[String]) -> i32 {
     let mut out = Out::create(arg_req(args, "--out"));
     for run in first..first + runs {
         let mut rng = run_rng(seed, 0xC05, run);
+        if run % 40 == 3 {
+            // DEEP nesting: k block openers in a row (every opened block still open), then a few
+            // instructions and closes - depths around 256 / 1024 and beyond
+            let k = [255usize, 256, 257, 300, 511, 513, 1025][rng.random_range(0..7)];
+            let mut genes: Vec<Value> = (1..=k).map(|pos| if rng.random_range(0..4) == 0 { json!({"o": 2, "t": 0}) } else { json!({"o": 1, "t": pos % 3}) }).collect();
+            for pos in 0..rng.random_range(1..=6usize) {
+                genes.push(json!({"o": 0, "t": 5000 + pos}));
+                if rng.random() {
+                    genes.push(json!({"c": true}));
+                }
+            }
+            let genes = Value::Array(genes);
+            let tokens = translate_flat(&genes);
+            out.line(&json!({"ev": "parse_flat", "run": run, "genes": genes, "tokens": tokens}));
+            continue;
+        }
         let len = rng.random_range(0..=maxlen);
         let pclose = f64::from(rng.random_range(0..=60u32)) / 100.0;
         let p2 = f64::from(rng.random_range(0..=40u32)) / 100.0;
